@@ -152,3 +152,46 @@ func VP_C12_Canonical() {
 	vpAssert(ok, "reverse complement yields the same items in opposite order")
 	vpReach("end")
 }
+
+// VP_C18_Canonical: CanonicalSubsequences can be stopped after any item.
+func VP_C18_Canonical() {
+	n, k := vpCase("n"), vpCase("k")
+	seq := vpBytes("seq", n)
+	for _, b := range seq {
+		vpAssume(vpIsDNA10(b))
+	}
+	var full [][]byte
+	for km := range CanonicalSubsequences(seq, k) {
+		full = append(full, append([]byte(nil), km...))
+	}
+	stop := vpChoice("stop", len(full)+1)
+	var got [][]byte
+	after := 0
+	declined := false
+	p := vpPanics(func() {
+		CanonicalSubsequences(seq, k)(func(km []byte) bool {
+			if declined {
+				after++
+				return false
+			}
+			got = append(got, append([]byte(nil), km...))
+			if len(got) > stop {
+				declined = true
+				return false
+			}
+			return true
+		})
+	})
+	vpAssert(!p, "stopping early does not panic")
+	vpAssert(after == 0, "no callback after the consumer declined")
+	want := full
+	if stop+1 < len(full) {
+		want = full[:stop+1]
+	}
+	ok := len(got) == len(want)
+	for i := 0; ok && i < len(want); i++ {
+		ok = bytes.Equal(got[i], want[i])
+	}
+	vpAssert(ok, "the items seen are the leading items of an uninterrupted run")
+	vpReach("end")
+}
